@@ -166,7 +166,12 @@ class SoupClientSession(SoupSession, session_type='client'):
         self.session_id.update(msg)
         self.send_msg(msg)
 
-        reply = await self.receive_msg()
+        try:
+            reply = await self.receive_msg()
+        except asyncio.CancelledError:
+            # the caller gave up (cancelled or timed out): do not leave a half-open session behind
+            await self.close()
+            raise
         if not isinstance(reply, LoginAccepted):
             self.log.error('%s> Login rejected, %s', self.session_id, str(reply))
             await self.close()
